@@ -129,15 +129,67 @@ Theorem c15_detect_loop_without_variable :
 Proof. exact detect_loop_without_variable. Qed.
 Print Assumptions c15_detect_loop_without_variable.
 
+(* go_to arity is judged on the edges the tool READS ([edges_read]: the rendered edge cells of the
+   row minus the blank padding that the tree at hand drops, FlowParser._parse_next_row) *)
 Theorem c15_detect_goto_arity :
+  forall fuel wb dm d t0 p r s bt (dests : list str) es,
+    compile fuel wb dm = Ok d ->
+  nth_error (rows_of wb t0) p = Some r -> r_type r = TGoto ->
+  evaluated_at fuel wb dm t0 p s bt ->
+  edges_read (f_ctx s) r = Ok es ->
+  length dests <> 1 -> length dests <> length es ->
+  compile fuel (set_row wb t0 p (set_list r (map (fun s => [Lit s]) dests))) dm = Err EGotoArity.
+Proof. exact detect_goto_arity. Qed.
+Print Assumptions c15_detect_goto_arity.
+
+(* in terms of the edge cells as written: more destinations than cells, on every tree *)
+Theorem c15_detect_goto_arity_too_many :
   forall fuel wb dm d t0 p r s bt (dests : list str),
     compile fuel wb dm = Ok d ->
   nth_error (rows_of wb t0) p = Some r -> r_type r = TGoto ->
   evaluated_at fuel wb dm t0 p s bt ->
+  length dests <> 1 -> length (r_edges r) < length dests ->
+  compile fuel (set_row wb t0 p (set_list r (map (fun s => [Lit s]) dests))) dm = Err EGotoArity.
+Proof. exact detect_goto_arity_too_many. Qed.
+Print Assumptions c15_detect_goto_arity_too_many.
+
+(* ... and any other count when no edge cell after the first is blank padding *)
+Theorem c15_detect_goto_arity_unpadded :
+  forall fuel wb dm d t0 p r s bt (dests : list str) es,
+    compile fuel wb dm = Ok d ->
+  nth_error (rows_of wb t0) p = Some r -> r_type r = TGoto ->
+  evaluated_at fuel wb dm t0 p s bt ->
+  mapM (render_edge (f_ctx s)) (r_edges r) = Ok es -> forallb nontrivial (tl es) = true ->
   length dests <> 1 -> length dests <> length (r_edges r) ->
   compile fuel (set_row wb t0 p (set_list r (map (fun s => [Lit s]) dests))) dm = Err EGotoArity.
-Proof. exact detect_goto_arity. Qed.
-Print Assumptions c15_detect_goto_arity.
+Proof. exact detect_goto_arity_unpadded. Qed.
+Print Assumptions c15_detect_goto_arity_unpadded.
+
+(* the statement over the cells as written, without the no-padding premise, is false on a tree
+   that drops padding at read (a padded go_to row is not an arity fault there) *)
+Theorem c15_detect_goto_arity_as_written_refuted :
+  padding_edges_dropped_at_read = true ->
+  ~ (forall fuel wb dm d t0 p r s bt (dests : list str),
+       compile fuel wb dm = Ok d ->
+       nth_error (rows_of wb t0) p = Some r -> r_type r = TGoto ->
+       evaluated_at fuel wb dm t0 p s bt ->
+       length dests <> 1 -> length dests <> length (r_edges r) ->
+       compile fuel (set_row wb t0 p (set_list r (map (fun s => [Lit s]) dests))) dm = Err EGotoArity).
+Proof. exact detect_goto_arity_as_written_refuted. Qed.
+Print Assumptions c15_detect_goto_arity_as_written_refuted.
+
+(* what reading does to the edges of a row, for both values of the probe *)
+Theorem c15_padding_read_facts :
+  forall es,
+    hd_error (drop_padding_edges es) = hd_error es /\                                   (* the first edge is kept *)
+    filter nontrivial (drop_padding_edges es) = filter nontrivial es /\                 (* every non-trivial edge, in order *)
+    List.incl (drop_padding_edges es) es /\                                             (* nothing invented *)
+    length (filter nontrivial es) <= length (drop_padding_edges es) <= length es /\     (* can only shrink *)
+    (forallb nontrivial (tl es) = true -> drop_padding_edges es = es) /\                (* no padding: read as written *)
+    (padding_edges_dropped_at_read = false -> drop_padding_edges es = es) /\            (* the tree before the repair *)
+    drop_padding_edges (drop_padding_edges es) = drop_padding_edges es.
+Proof. exact padding_read_facts. Qed.
+Print Assumptions c15_padding_read_facts.
 
 Theorem c15_detect_edge_from_unknown_row_partial :
   forall fuel wb dm d t0 p r s bt ghost e0 more,
@@ -405,10 +457,29 @@ Print Assumptions c15_detect_loop_without_variable_nonvacuous.
 
 Example c15_detect_goto_arity_nonvacuous :
     evaluated_at ex_fuel ex_wb None B 8 (trap_state (ev B 8)) (trap_bt (ev B 8)) /\
+  edges_read (f_ctx (trap_state (ev B 8))) (nth 8 flowB_rows (row_ TSend [] [] [])) = Ok [mkIE [] no_cond] /\
   compile ex_fuel (set_row ex_wb B 8 (set_list (nth 8 flowB_rows (row_ TSend [] [] [])) (map (fun s => [Lit s]) [S_ "a"; S_ "a"]))) None
   = Err EGotoArity.
 Proof. exact detect_goto_arity_nonvacuous. Qed.
 Print Assumptions c15_detect_goto_arity_nonvacuous.
+
+(* a go_to row with a blank padding cell in a third edge column: read and judged as the tree at hand does *)
+Example c15_goto_padding_follows_the_tree :
+  compile ex_fuel pad_wb None = Ok pad_doc /\
+  evaluated_at ex_fuel pad_wb None P 4 (trap_state evP) (trap_bt evP) /\
+  List.length (r_edges pad_row) = 3 /\
+  edges_read (f_ctx (trap_state evP)) pad_row
+  = Ok (if padding_edges_dropped_at_read
+        then [mkIE (S_ "a2") no_cond; mkIE (S_ "a3") no_cond]
+        else [mkIE (S_ "a2") no_cond; mkIE (S_ "a3") no_cond; mkIE [] no_cond]) /\
+  compile ex_fuel (set_row pad_wb P 4 (set_list pad_row (map (fun s => [Lit s]) [S_ "a1"; S_ "a1"]))) None
+  = (if padding_edges_dropped_at_read then Ok pad_doc else Err EGotoArity) /\
+  compile ex_fuel (set_row pad_wb P 4 (set_list pad_row (map (fun s => [Lit s]) [S_ "a1"; S_ "a1"; S_ "a1"]))) None
+  = (if padding_edges_dropped_at_read then Err EGotoArity else Ok pad_doc) /\
+  compile ex_fuel (set_row pad_wb P 4 (set_list pad_row (map (fun s => [Lit s]) [S_ "a1"; S_ "a1"; S_ "a1"; S_ "a1"]))) None
+  = Err EGotoArity.
+Proof. exact goto_padding_follows_the_tree. Qed.
+Print Assumptions c15_goto_padding_follows_the_tree.
 
 Example c15_detect_edge_from_unknown_row_nonvacuous :
     evaluated_at ex_fuel ex_wb None B 7 (trap_state (ev B 7)) (trap_bt (ev B 7)) /\
